@@ -2324,7 +2324,10 @@ impl<'a, 'b, W: Write> SerializeMap for MapSer<'a, 'b, W> {
                 }
                 self.ser.out.write_str(":")?;
                 self.ser.pending_space_after_colon = true;
-                self.ser.pending_inline_map = true;
+                // As for the key: a mapping value continues after ": " only when its following
+                // lines, indented by whole steps, line up with that first one.
+                self.ser.pending_inline_map =
+                    self.ser.indent_step == 2 && !self.ser.compact_list_indent;
                 self.ser.at_line_start = false;
                 self.ser.depth = self.depth;
             }
